@@ -92,6 +92,10 @@ def iter_ops(r="v0"):
         for fill in ("it[]", "it[7]", "it[7,8]", "it[7,8,9,10,11,12]"):
             for steps in ([], ["next it"], ["next_back it", "next it"]):
                 seqs.append(["splice %s %s %s %s it" % (r, b1, b2, fill)] + steps + ["size_hint it", "drop it", "push %s 77" % r])
+        # a Splice that is leaked after stepping, also with a replacement iterator that is not fused
+        for fill in ("it[7,8]", "it[N,7,8,9]", "it[7,N,8,9]"):
+            for steps in ([], ["next it"], ["next_back it"], ["next it", "next it"], ["next_back it", "next_back it", "next it"]):
+                seqs.append(["splice %s %s %s %s it" % (r, b1, b2, fill)] + steps + ["forget it", "push %s 77" % r])
     for p in ("mod2=0", "mod2=1", "seqTTTTTTTT", "seq", "seqFTFTFT"):
         for steps in ([], ["next it"], ["next it", "next it", "next it", "next it", "next it"]):
             for fin in ("drop it", "forget it"):
